@@ -92,6 +92,19 @@ func (core *JApiCore) buildUserTypes() *jerr.JApiError {
 		return adoptError(err)
 	}
 
+	// Before any type is checked by the schema library, see CheckShortcutKeys.
+	err = core.userTypes.Each(func(n string, ut schema.Schema) error {
+		if js, ok := ut.(*jschema.JSchema); ok {
+			if err := catalog.CheckShortcutKeys(js, core.userTypes); err != nil {
+				return core.rawUserTypes.GetValue(n).KeywordError(err.Error())
+			}
+		}
+		return nil
+	})
+	if err != nil {
+		return adoptError(err)
+	}
+
 	err = core.userTypes.Each(func(n string, _ schema.Schema) error {
 		return core.compileUserTypeWithAllDependencies(n)
 	})
